@@ -86,7 +86,29 @@ PROBES = [
 ]
 
 
-def probe(o):
+CEREMONY = {"C04": ["c04"], "C05": ["c05"], "C07": ["c07"], "C08": ["c08"], "C11": ["c11"], "C02": ["c07", "c11"], "C03": ["c05"]}
+
+
+def probe(o, pid=None):
+    if o["id"].startswith("c18::"):
+        tried = []
+        for op in ("get_info", "make_credential", "get_assertion"):
+            rep = run_replay("c18-trait", op, timeout=60)
+            tried.append({"arg": op, "result": rep})
+            if rep.get("violates"):
+                return {"input": op, "entry": "c18-trait", "reproduced": True, "replay_result": rep,
+                        "source": "the three operations called through the trait (no input is needed for the failure)"}
+        return {"input": None, "reproduced": False, "probes_tried": tried}
+    if o["id"].startswith("cer::") and pid in CEREMONY:
+        tried = []
+        for sc in CEREMONY[pid]:
+            rep = run_replay("ceremony", sc, timeout=300)
+            tried.append({"arg": sc, "result": rep})
+            if rep.get("violates"):
+                return {"input": sc, "entry": "ceremony", "reproduced": True, "replay_result": rep,
+                        "source": "scenario sweep over the property's own finite quantifier on the real ceremonies "
+                                  "(the verifier gives no counterexample); the detail names the failing combination"}
+        return {"input": None, "reproduced": False, "probes_tried": tried}
     for rx, entry, args in PROBES:
         if rx.search(o["id"]):
             tried = []
@@ -138,7 +160,7 @@ def find_input(pid, o):
             fam = f
             break
     if fam is None:
-        return probe(o)
+        return probe(o, pid)
     if fam not in _memo:
         _memo[fam] = _find_input_inner(fam)
     return _memo[fam]
